@@ -226,7 +226,11 @@ def canon_geo(geo):
 
 
 def vol6_geo(geo):
-    return sum(dot(t[0], cross(t[1], t[2])) for _, t in geo)
+    """six times the signed volume; coordinates are taken relative to the first vertex (closed surfaces: translation invariant)"""
+    if not geo:
+        return 0.0
+    o = geo[0][1][0]
+    return math.fsum(dot(sub(t[0], o), cross(sub(t[1], o), sub(t[2], o))) for _, t in geo)
 
 
 def area_geo(geo):
